@@ -151,9 +151,7 @@ def check(sc, tr, rc):
                 if stop_call is None:
                     V.append(f"{lab}: wall-clock alarm already due when requested was never delivered")
                 continue
-            if got[0][0] > 20000 and past_us == 0 and stop_call is None and "delays" not in kv:
-                V.append(f"{lab}: already-due alarm delivered only at {got[0][0]} us")
-            continue
+            continue          # (how late it is delivered is not a verdict: "late if the graph lags" - and a loaded machine lags)
         if when >= end_us or when <= made:
             continue
         hit = [e for e in evals.get(lab, []) if e[0] == when]
